@@ -639,8 +639,13 @@ impl Sim {
         self.old_wires.push(old);
         self.wire_parsed = 0;
         self.wire_split_error = None;
+        // the new transport behaves like the old one (read caps, write plan)
+        let plan = self.writer.0.borrow().plan.clone();
+        let cap = self.reader.0.borrow().default_cap;
         self.reader = MockReader::new();
         self.writer = MockWriter::new();
+        self.writer.0.borrow_mut().plan = plan;
+        self.reader.0.borrow_mut().default_cap = cap;
         let (r, w) = (self.reader.clone(), self.writer.clone());
         self.run_epoch = self.run_results_count();
         self.note(|| "new transport".into());
